@@ -230,6 +230,10 @@ pub mod utils;
 /// Events.
 pub mod events;
 
+/// Verification hooks.
+#[cfg(feature = "verif")]
+pub mod verif;
+
 use self::{
     instructions::*,
     ops::{
